@@ -24,6 +24,9 @@ pub struct Case {
     /// the accuracy slice: (group key, REAL text, INT text) rows for VARIANCE / STDDEV / AVG / SUM over values that are not dyadic or far from zero
     #[serde(default)]
     pub var_rows: Option<Vec<(u8, String, String)>>,
+    /// the rank slice: PERCENTILE over n distinct integers from a start value, for these fractions (decimal texts)
+    #[serde(default)]
+    pub rank: Option<(u32, i64, Vec<String>)>,
 }
 
 pub struct C04;
@@ -574,6 +577,51 @@ fn check_nan_slice(rows: &[(u8, String)], ctx: &Ctx, obs: &mut Obs) -> Result<()
 /// VARIANCE / STDDEV / AVG / SUM over values that are not dyadic rationals or lie far from zero. INT: the cells must agree with
 /// exact integer arithmetic within a tolerance that scales with the result (0 for a spread of 1 around 1e8 fails). REAL: a
 /// non-negative number within a tolerance that scales with the sum of squares (NaN or a negative variance fails).
+/// The rank slice: PERCENTILE(i, p) over the integers start .. start+n-1 (in a scrambled order) for fractions p with up to six decimals.
+/// Oracle: the element of rank floor(p * n) (0-based, p * n computed exactly in integers; the rank the f64 product gives is accepted too).
+fn check_rank_slice(spec: &(u32, i64, Vec<String>), ctx: &Ctx, obs: &mut Obs) -> Result<(), Failure> {
+    obs.label("rank-slice");
+    obs.nontrivial = true;
+    let (n, start, fractions) = (spec.0 as i64, spec.1, &spec.2);
+    let defs = "CREATE TABLE v(line = '^i=(-?[0-9]+);', line[1] => i INT);";
+    let tables = build_tables(defs).map_err(|e| Failure::new("definition-rejected", e))?;
+    let items: Vec<String> = fractions.iter().enumerate().map(|(k, p)| format!("PERCENTILE(i, {}) AS p{}", p, k)).collect();
+    let query = format!("SELECT {}, COUNT(*) AS n FROM v", items.join(", "));
+    let statement = parse_statement(&query).map_err(|e| Failure::new("query-rejected", e))?;
+    // a fixed scramble of the values (multiplication by a unit modulo n)
+    let step = (0..).map(|k| 7919 + 2 * k).find(|s| gcd(*s, n) == 1).unwrap_or(1);
+    let lines: Vec<String> = (0..n).map(|k| format!("i={};", start + (k * step) % n)).collect();
+    let files = scratch_files(ctx, "c04r", &[lines_to_bytes(&lines)]);
+    let out = run_batch(&tables, &statement, &files, RunOptions::default()).map_err(|p| Failure::new(format!("panic: {}", crate::run::panic_class(&p)), format!("panicked: {}", p)))?;
+    let context = format!("query: {}\n  table: {}\n  lines: the integers {} .. {} in a scrambled order\n  output: {:?} {:?}", query, defs, start, start + n - 1, out.lines, out.result);
+    if out.result.is_err() || out.records().len() != 1 {
+        return Err(Failure::new("rank-slice: no table", context));
+    }
+    let rec = parse_json(&out.records()[0]).map_err(|e| Failure::new("rank-slice: undecodable", format!("{}\n  {}", e, context)))?;
+    for (k, p) in fractions.iter().enumerate() {
+        let digits = p.split('.').nth(1).unwrap_or("");
+        let scale = 10i128.pow(digits.len() as u32);
+        let numerator: i128 = p.replace('.', "").parse().unwrap_or(0);
+        let exact = ((numerator * n as i128) / scale).min(n as i128 - 1) as i64;
+        let float = ((p.parse::<f64>().unwrap_or(0.0) * n as f64) as i64).min(n - 1);
+        let got = match rec.get(&format!("p{}", k)) {
+            Some(J::Num(text)) => text.parse::<i64>().ok(),
+            _ => None,
+        };
+        if got != Some(start + exact) && got != Some(start + float) {
+            return Err(Failure::new(
+                "rank-slice: percentile",
+                format!("PERCENTILE(i, {}) over {} distinct integers printed {:?}, the element of rank floor(p * n) = {} is {}\n  {}", p, n, got, exact, start + exact, context),
+            ));
+        }
+    }
+    Ok(())
+}
+
+fn gcd(a: i64, b: i64) -> i64 {
+    if b == 0 { a.abs() } else { gcd(b, a % b) }
+}
+
 fn check_var_slice(rows: &[(u8, String, String)], ctx: &Ctx, obs: &mut Obs) -> Result<(), Failure> {
     obs.label("accuracy-slice");
     let defs = "CREATE TABLE v(line = '^g=([0-9]);r=([^;]*);i=([^;]*);', line[1] => g INT, line[2] => r REAL, line[3] => i INT);";
@@ -738,12 +786,23 @@ impl Property for C04 {
         } else {
             None
         };
-        Case { table, lines, query, nan_rows, var_rows }
+        // one case in 300: the rank slice (a thousand or more values in one group, fractions with five or six decimals)
+        let rank = if t.chance(1, 300) {
+            let n = *t.pick(&[1000u32, 2000, 3000, 10_000, 20_000]);
+            let fractions: Vec<String> = (0..3).map(|_| match t.draw(4) { 0 => format!("0.{:05}", 1 + t.draw(99_998)), 1 => format!("0.{:06}", 1 + t.draw(999_998)), 2 => t.pick(&["0.5", "0.99995", "0.00005", "0.33333", "0.12345", "0.999999"]).to_string(), _ => format!("0.{:04}", 1 + t.draw(9_998)) }).collect();
+            Some((n, t.range(-50, 50), fractions))
+        } else {
+            None
+        };
+        Case { table, lines, query, nan_rows, var_rows, rank }
     }
 
     fn check(&self, case: &Case, ctx: &Ctx, obs: &mut Obs) -> Result<(), Failure> {
         if let Some(rows) = &case.nan_rows {
             return check_nan_slice(rows, ctx, obs);
+        }
+        if let Some(spec) = &case.rank {
+            return check_rank_slice(spec, ctx, obs);
         }
         if let Some(rows) = &case.var_rows {
             return check_var_slice(rows, ctx, obs);
